@@ -71,21 +71,6 @@ Fixpoint has_dup (l : list key) : bool :=
   | k :: r => key_mem k r || has_dup r
   end.
 
-Fixpoint strictly_inc (l : list nat) : bool :=
-  match l with
-  | a :: ((b :: _) as r) => (a <? b) && strictly_inc r
-  | _ => true
-  end.
-
-(** a key's columns are listed in column order (then RowValidator's column-order extraction
-    yields the key the hash maps use) *)
-Definition key_in_col_order (s : schema) (cols : list nat) : bool :=
-  strictly_inc cols && forallb (fun c => c <? s_ncols s) cols.
-
-Definition keys_in_col_order (s : schema) : bool :=
-  match s_pk s with Some cols => key_in_col_order s cols | None => true end
-  && forallb (key_in_col_order s) (s_uniqs s).
-
 (** some new row satisfies every CHECK the executors know but falsifies a declared one
     (a CHECK added by ALTER TABLE that only reached the storage copy of the schema) *)
 Definition unenforced_check_hit (s : schema) (rows : list row) : bool :=
@@ -95,40 +80,15 @@ Definition uidx_nil (t : table) : bool := match t_uidx t with [] => true | _ => 
 
 (** INSERT ... VALUES (and the non-bulk INSERT ... SELECT) *)
 Definition kc_insert_values (t : table) (rows : list row) : bool :=
-  (* composite-key-validated-in-column-order *)
-  negb (keys_in_col_order (t_sch t))
   (* unique-index-batch-insert-duplicates *)
-  || ((1 <? length rows)
+  ((1 <? length rows)
       && existsb (fun u => ui_unique u && has_dup (somes (uq_kf (ui_cols u)) rows)) (t_uidx t))
   (* alter-add-check-not-enforced *)
   || unenforced_check_hit (t_sch t) rows.
 
-(** append-mode-bulk-transfer-duplicate-pk: replay of execute_bulk_transfer that reports whether
-    the append-mode shortcut is ever taken for a key that IS in the primary-key map *)
-Fixpoint bulk_shortcut_hit (t : table) (seen_pk : list key) (seen_uq : list (list key)) (src : list row) : bool :=
-  match src with
-  | [] => false
-  | r :: rest =>
-      let s := t_sch t in
-      if negb (bulk_pk_ok t seen_pk r) then false
-      else
-        (match s_pk s, t_pkidx t with
-         | Some cols, Some m => negb (key_mem (proj cols r) seen_pk) && tr_mode (t_trk t) && am_mem (proj cols r) m
-         | _, _ => false
-         end)
-        || (if negb (bulk_unique_ok (s_uniqs s) seen_uq (t_uqidx t) r) then false
-            else if negb (checks_ok (s_checks_enf s) r) then false
-            else
-              let seen_pk' := match s_pk s with Some cols => seen_pk ++ [proj cols r] | None => seen_pk end in
-              let seen_uq' := bulk_seen_uq_push (s_uniqs s) seen_uq r in
-              let '(t', ok) := db_insert_row t r in
-              if ok then bulk_shortcut_hit t' seen_pk' seen_uq' rest else false)
-  end.
-
 Definition kc_insert_select (dst : table) (same : bool) (src_sch : schema) (src_rows sel : list row) : bool :=
   if negb same && bulk_compatible (t_sch dst) src_sch then
-    bulk_shortcut_hit dst [] (map (fun _ => []) (s_uniqs (t_sch dst))) src_rows
-    || unenforced_check_hit (t_sch dst) src_rows
+    unenforced_check_hit (t_sch dst) src_rows
   else if negb (s_ncols src_sch =? s_ncols (t_sch dst)) then false
   else kc_insert_values dst sel.
 
@@ -145,11 +105,11 @@ Definition kc_update (t : table) (asg : list (nat * sexpr)) (w : option pred) : 
       | UPlan ups =>
           let news := map snd ups in
           let s := t_sch t in
-          (* multirow-update-same-new-key: two updated rows end with the same key *)
+          (* multirow-update-same-new-key: two updated rows end with the same PRIMARY KEY / UNIQUE /
+             UNIQUE INDEX key *)
           match s_pk s with Some cols => has_dup (somes (pk_kf cols) news) | None => false end
           || existsb (fun cols => has_dup (somes (uq_kf cols) news)) (s_uniqs s)
-          (* update-ignores-unique-index: the result has a duplicate under a UNIQUE index *)
-          || existsb (fun u => ui_unique u && has_dup (somes (uq_kf (ui_cols u)) (apply_ups ups (t_rows t)))) (t_uidx t)
+          || existsb (fun u => ui_unique u && has_dup (somes (uq_kf (ui_cols u)) news)) (t_uidx t)
           (* alter-add-check-not-enforced *)
           || unenforced_check_hit s news
       | _ => false
